@@ -261,7 +261,7 @@ func SQLName(res *string) parse.Func {
 	})
 }
 
-var typeRE = regexp.MustCompile(`^(?i:text|varchar|integer|number|real)`)
+var typeRE = regexp.MustCompile(`^(?i:text|varchar|integer|number|real)\b`)
 
 func ColumnType(res *string) parse.Func {
 	return parse.RE(typeRE, func(s []string) bool {
